@@ -43,7 +43,7 @@ func VerifC19_RequestIDHTTP() {
 	var opts []middleware.RequestIDOption
 	trust := false
 	header := "X-Request-Id"
-	switch nondetChoice("trust-option", 4) {
+	switch nondetChoice("trust-option", 6) {
 	case 0: // default: never trust
 	case 1:
 		opts = append(opts, UseXRequestIDHeaderOption(true))
@@ -53,6 +53,12 @@ func VerifC19_RequestIDHTTP() {
 	case 3:
 		opts = append(opts, RequestIDHeaderOption("Custom-Id"))
 		trust, header = true, "Custom-Id"
+	case 4: // header names are case-insensitive: a name that is not in canonical form
+		opts = append(opts, RequestIDHeaderOption("x-correlation-id"))
+		trust, header = true, "x-correlation-id"
+	case 5:
+		opts = append(opts, RequestIDHeaderOption("X-REQ-ID"))
+		trust, header = true, "X-REQ-ID"
 	}
 	limit := 0
 	if nondetBool("with-limit") {
@@ -179,13 +185,18 @@ func verifChain(depth int) {
 	}
 	traceID := nondetString("trace", 2)
 	verifAssume(traceID != "")
+	forward := nondetBool("hops-forward-their-request-headers")
 	var handlerAt func(i int) http.Handler
 	handlerAt = func(i int) http.Handler {
 		inner := http.HandlerFunc(func(w http.ResponseWriter, req *http.Request) {
 			spans[i] = verifSpanOf(req.Context())
 			if i+1 < depth {
 				doer := WrapDoer(&verifDoer{next: handlerAt(i + 1)})
-				out := (&http.Request{Header: http.Header{}}).WithContext(req.Context())
+				hdr := http.Header{}
+				if forward {
+					hdr = req.Header.Clone() // a relaying hop keeps the headers it received
+				}
+				out := (&http.Request{Header: hdr}).WithContext(req.Context())
 				doer.Do(out)
 			}
 		})
@@ -198,6 +209,7 @@ func verifChain(depth int) {
 		traceID2 := nondetString("inbound", 2)
 		verifAssume(traceID2 != "")
 		first.Header.Set(TraceIDHeader, traceID2)
+		first.Header.Set(ParentSpanIDHeader, "origin")
 		traceID = traceID2
 	}
 	handlerAt(0).ServeHTTP(&verifW{h: http.Header{}}, first)
